@@ -289,6 +289,37 @@ func (c *Check) fixedC11() []*plan.Plan {
 		p.Tasks = [][]plan.Op{ops}
 		out = append(out, p)
 	}
+	// (3a) what the last read of a stream carries: pages small enough to arrive in one read, and pages whose
+	// only non-ASCII bytes come after an ASCII prefix of a size taken from the source's integer literals —
+	// the last bytes together with io.EOF, one byte at a time, and as a file
+	{
+		tail := gen.TinyNonASCIIDocs()
+		for _, sz := range gen.PrefixSizes(400, 70000, 6) {
+			tail = append(tail, gen.AsciiPrefixDoc(uint64(0x7a11+sz), sz))
+		}
+		for lo := 0; lo < len(tail); lo += 4 {
+			p := c.newPlan("delivery", run, uint64(7000+lo), "bubble")
+			run++
+			var ops []plan.Op
+			for k := lo; k < lo+4 && k < len(tail); k++ {
+				d := tail[k]
+				if k%4 == 0 {
+					c.noteDoc(d)
+				}
+				id := fmt.Sprintf("d%d", k-lo)
+				n := len(d.Bytes)
+				p.Docs = append(p.Docs, plan.NewDoc(id, d.Bytes, d.Origin))
+				p.Options = append(p.Options, optWithURL("o"+id, d.URL, uint(k%2), 0))
+				ops = append(ops,
+					plan.Op{Op: "Reader", Doc: id, Opt: "o" + id, Reader: &plan.ReaderPlan{FaultAt: n, FaultKind: "eof-with-data"}},
+					plan.Op{Op: "Reader", Doc: id, Opt: "o" + id, Reader: &plan.ReaderPlan{Chunks: []int{n - 1, 1}, FaultAt: n, FaultKind: "eof-with-data"}},
+					plan.Op{Op: "Reader", Doc: id, Opt: "o" + id, Reader: &plan.ReaderPlan{Chunks: []int{1}, FaultAt: -1}},
+					plan.Op{Op: "File", Doc: id, Opt: "o" + id})
+			}
+			p.Tasks = [][]plan.Op{ops}
+			out = append(out, p)
+		}
+	}
 	// (3b) order among goroutines the library starts itself (simulated tasks): link- and image-heavy pages
 	{
 		gdocs := append([]gen.GenDoc{gen.IndexPage(900)}, gen.BigDocs()...)
